@@ -3,6 +3,8 @@ package props
 import (
 	"fmt"
 	"go/token"
+	"go/types"
+	"sort"
 	"strings"
 
 	"golang.org/x/tools/go/ssa"
@@ -334,41 +336,141 @@ func c04(c *Ctx) {
 
 type route struct{ pred, thenField, elseField string }
 
-// routing recognises `if pred(key) { return s.a.M(..) } else { return s.b.M(..) }`.
+// routing recognises a dispatch between two backend fields: every block that calls a method on a
+// backend field is described by the (canonically rendered) branch conditions that dominate it.
+// `if pred(key) { return s.a.M(..) } else { return s.b.M(..) }` and the same test written out
+// (`len(key) > 0 && T(key[0]) == K`) in Get and in Put give equal descriptions.
 func routing(fn *ssa.Function) (route, bool) {
 	if len(fn.Blocks) == 0 {
 		return route{}, false
 	}
-	b0 := fn.Blocks[0]
-	ifi, ok := b0.Instrs[len(b0.Instrs)-1].(*ssa.If)
-	if !ok {
-		return route{}, false
+	type hit struct {
+		field string
+		cond  string
 	}
-	call, ok := ifi.Cond.(*ssa.Call)
-	if !ok {
-		return route{}, false
-	}
-	backend := func(b *ssa.BasicBlock) string {
+	var hits []hit
+	for _, b := range fn.Blocks {
 		for _, in := range b.Instrs {
-			if c, ok := in.(*ssa.Call); ok && c.Call.IsInvoke() || ok && core.StaticCalleeFn(c) != nil {
-				var recv ssa.Value
-				if c.Call.IsInvoke() {
-					recv = c.Call.Value
-				} else if len(c.Call.Args) > 0 {
-					recv = c.Call.Args[0]
-				}
-				if _, f, ok := core.LoadedField(recv); ok {
-					return f
+			c, ok := in.(*ssa.Call)
+			if !ok {
+				continue
+			}
+			var recv ssa.Value
+			if c.Call.IsInvoke() {
+				recv = c.Call.Value
+			} else if core.StaticCalleeFn(c) != nil && len(c.Call.Args) > 0 {
+				recv = c.Call.Args[0]
+			}
+			if recv == nil {
+				continue
+			}
+			_, f, ok := core.LoadedField(recv)
+			if !ok {
+				continue
+			}
+			if base, isP := fieldBase(recv).(*ssa.Parameter); !isP || base != fn.Params[0] {
+				continue
+			}
+			// a backend is itself a store: its type has Get and Put
+			ms := types.NewMethodSet(recv.Type())
+			hasGet, hasPut := false, false
+			for i := 0; i < ms.Len(); i++ {
+				switch ms.At(i).Obj().Name() {
+				case "Get":
+					hasGet = true
+				case "Put":
+					hasPut = true
 				}
 			}
+			if !hasGet || !hasPut {
+				continue
+			}
+			var fs []string
+			for _, fc := range core.DomFacts(b) {
+				fs = append(fs, canonFact(fn, fc))
+			}
+			sort.Strings(fs)
+			hits = append(hits, hit{f, strings.Join(fs, " & ")})
 		}
-		return ""
 	}
-	r := route{pred: core.CalleeID(call), thenField: backend(b0.Succs[0]), elseField: backend(b0.Succs[1])}
-	if r.thenField == "" || r.elseField == "" {
+	if len(hits) != 2 || hits[0].field == hits[1].field {
 		return route{}, false
 	}
-	return r, true
+	// order: the branch with the positive (shorter / non-negated) description first is arbitrary;
+	// render the pair sorted by field name so that Get and Put compare equal
+	if hits[0].field > hits[1].field {
+		hits[0], hits[1] = hits[1], hits[0]
+	}
+	return route{pred: hits[0].field + " iff [" + hits[0].cond + "], " + hits[1].field + " iff [" + hits[1].cond + "]", thenField: hits[0].field, elseField: hits[1].field}, true
+}
+
+func fieldBase(v ssa.Value) ssa.Value {
+	if u, ok := v.(*ssa.UnOp); ok {
+		v = u.X
+	}
+	if _, _, base, ok := core.FieldRef(v); ok {
+		return base
+	}
+	return nil
+}
+
+// canonFact renders a fact with parameters named by index, so that two sibling functions
+// testing the same thing about their own parameters give the same text.
+func canonFact(fn *ssa.Function, f core.Fact) string {
+	if f.Op == token.ILLEGAL {
+		if f.Truth {
+			return canonVal(fn, f.V, 0)
+		}
+		return "!" + canonVal(fn, f.V, 0)
+	}
+	return canonVal(fn, f.X, 0) + " " + f.Op.String() + " " + canonVal(fn, f.Y, 0)
+}
+
+func canonVal(fn *ssa.Function, v ssa.Value, d int) string {
+	if v == nil || d > 8 {
+		return "?"
+	}
+	switch x := v.(type) {
+	case *ssa.Parameter:
+		for i, pa := range fn.Params {
+			if pa == x {
+				return fmt.Sprintf("P%d", i)
+			}
+		}
+	case *ssa.Const:
+		if x.Value == nil {
+			return "nil"
+		}
+		return x.Value.String()
+	case *ssa.Global:
+		return x.Name()
+	case *ssa.UnOp:
+		if x.Op == token.MUL {
+			return "*" + canonVal(fn, x.X, d+1)
+		}
+		return x.Op.String() + canonVal(fn, x.X, d+1)
+	case *ssa.IndexAddr:
+		return canonVal(fn, x.X, d+1) + "[" + canonVal(fn, x.Index, d+1) + "]"
+	case *ssa.Index:
+		return canonVal(fn, x.X, d+1) + "[" + canonVal(fn, x.Index, d+1) + "]"
+	case *ssa.FieldAddr:
+		_, f, _, _ := core.FieldRef(x)
+		return canonVal(fn, x.X, d+1) + "." + f
+	case *ssa.Convert:
+		return canonVal(fn, x.X, d+1)
+	case *ssa.ChangeType:
+		return canonVal(fn, x.X, d+1)
+	case *ssa.BinOp:
+		return "(" + canonVal(fn, x.X, d+1) + x.Op.String() + canonVal(fn, x.Y, d+1) + ")"
+	case *ssa.Call:
+		id := core.CalleeID(x)
+		var as []string
+		for _, a := range x.Call.Args {
+			as = append(as, canonVal(fn, a, d+1))
+		}
+		return id + "(" + strings.Join(as, ",") + ")"
+	}
+	return fmt.Sprintf("%T", v)
 }
 
 func isSizeKey(v ssa.Value) bool {
